@@ -4,7 +4,7 @@
 (* broken algorithms for which the relation must FAIL (non-vacuity).          *)
 EXTENDS Truncate, TLC
 
-CONSTANTS Variant,      \* "impl" | "ge" (l >= size cuts) | "noopt" (OPT length not subtracted) | "tcanswer" (TC only when Answer is cut)
+CONSTANTS Variant,      \* "impl" | "ge" (l >= size cuts) | "noopt" (OPT length not subtracted) | "optover" (OPT measured too long) | "tcanswer" (TC only when Answer is cut)
           MaxAn, MaxNs, MaxAr, MaxSize
 
 VARIABLES m, size
@@ -29,10 +29,11 @@ BrokenImpl ==
               IN [m EXCEPT !.an = Prefix(m.an, a.n), !.ns = <<>>, !.ar = <<>>,
                            !.tc = m.tc \/ a.n < Len(m.an) \/ Len(m.ns) > 0 \/ Len(m.ar) > 0]
     [] Variant = "noopt" -> TruncImpl([m EXCEPT !.opt = 0], size)
+    [] Variant = "optover" -> TruncImpl([m EXCEPT !.opt = IF m.opt > 0 THEN m.opt + 1 ELSE 0], size)   \* the OPT is measured one octet too long
     [] Variant = "tcanswer" -> LET r == TruncImpl(m, size) IN [r EXCEPT !.tc = m.tc \/ Len(r.an) < Len(m.an)]
     [] OTHER -> TruncImpl(m, size)
 
-Result == IF Variant = "noopt" THEN [BrokenImpl EXCEPT !.opt = m.opt] ELSE BrokenImpl
+Result == IF Variant \in {"noopt", "optover"} THEN [BrokenImpl EXCEPT !.opt = m.opt] ELSE BrokenImpl
 
 Holds == TruncOK(Facts(m, size, Result))
 
